@@ -38,6 +38,9 @@ def sourcePackage (package source : Bytes) : Bytes :=
   else if !Str.contains source [32] then source
   else (Str.split [32] source).headD []
 
+/-- `deb.Control.SourceName()`: the Source field, or the package's own name without one -/
+def sourceName (package source : Bytes) : Bytes := if source.isEmpty then package else source
+
 /-- a checksum entry as the accessors see it: the algorithm tag and the rest -/
 structure Hash where
   algorithm : Bytes
